@@ -113,13 +113,19 @@ def imm_eval_wrappers(facts):
         cached = set()
         for name, fn in getattr(facts, 'funcs', {}).items():
             params = {a.arg for a in fn.args.posonlyargs + fn.args.args}
-            for n in ast.walk(fn):
-                if isinstance(n, ast.Return) and n.value is not None:
-                    for c in ast.walk(n.value):
-                        if (isinstance(c, ast.Call) and isinstance(c.func, ast.Attribute) and c.func.attr == 'eval'
-                                and isinstance(c.func.value, ast.Attribute) and c.func.value.attr == 'imm'
-                                and isinstance(c.func.value.value, ast.Name) and c.func.value.value.id in params):
-                            cached.add(name)
+            rets = [n for n in ast.walk(fn) if isinstance(n, ast.Return)]
+            # every exit hands back the evaluated number (a helper that also answers None / a constant is a decision helper, walked)
+            returns = bool(rets) and all(n.value is not None and not isinstance(n.value, ast.Constant) for n in rets)
+            nested = any(isinstance(n, (ast.FunctionDef, ast.Lambda)) and n is not fn for n in ast.walk(fn))
+            def is_imm(e):
+                return isinstance(e, ast.Attribute) and e.attr == 'imm' and isinstance(e.value, ast.Name) and e.value.id in params
+            aliases = {t.id for n in ast.walk(fn) if isinstance(n, ast.Assign) and is_imm(n.value) for t in n.targets if isinstance(t, ast.Name)}
+            for c in ast.walk(fn):
+                # (the evaluation may be returned directly or through a local: `value = item.imm.eval(..); return value + k`, and the
+                # operand may be held in a local: `imm = item.imm; return imm.eval(..)`)
+                if (returns and not nested and isinstance(c, ast.Call) and isinstance(c.func, ast.Attribute) and c.func.attr == 'eval'
+                        and (is_imm(c.func.value) or (isinstance(c.func.value, ast.Name) and c.func.value.id in aliases))):
+                    cached.add(name)
         try:
             facts._imm_eval_wrappers = cached
         except AttributeError:
@@ -212,6 +218,26 @@ def show(v, depth=0):
     return repr(v)
 
 
+STR_METHODS_RETURNING_STR = ('format', 'join', 'upper', 'lower', 'strip', 'lstrip', 'rstrip', 'replace', 'title', 'capitalize', 'ljust', 'rjust',
+                             'center', 'zfill', 'format_map', 'expandtabs', 'casefold', 'swapcase')
+
+
+def never_none(v):
+    """Values that are a str / bytes whatever their operands are: a method of a string literal that returns a string, an f-string,
+    `'literal' % x`, a concatenation with a string literal."""
+    while v[0] == 'res':
+        v = v[3]
+    if v[0] == 'mcall' and is_const(v[1]) and isinstance(v[1][1], (str, bytes)) and v[2] in STR_METHODS_RETURNING_STR:
+        return True
+    if v[0] == 'opaque' and isinstance(v[1], str) and v[1][:2] in ("f'", 'f"'):
+        return True
+    if v[0] == 'bin' and v[1] in ('%', '+') and is_const(v[2]) and isinstance(v[2][1], (str, bytes)):
+        return True
+    if v[0] == 'bin' and v[1] == '+' and is_const(v[3]) and isinstance(v[3][1], (str, bytes)):
+        return True
+    return False
+
+
 class PathState:
     def __init__(self):
         self.env = {}
@@ -242,8 +268,13 @@ class PathState:
 class Walker:
     """Enumerates paths through a statement list."""
 
-    def __init__(self, facts, loop_var=None, class_of=None, max_paths=40000, name_results=False, inline='default', opaque=()):
+    def __init__(self, facts, loop_var=None, class_of=None, max_paths=40000, name_results=False, inline='default', opaque=(), exits_end_paths=False,
+                 guard_effects=False):
         self.facts = facts
+        # `if t: <effect-only calls>` (nothing bound, nothing inlinable, no control flow in either branch) does not fork the path:
+        # its calls become ('guarded', test, polarity, event, node) events of the one path
+        self.guard_effects = guard_effects
+        self.exits_end_paths = exits_end_paths   # `sys.exit(x)` / `parser.error(..)` as statements are `raise SystemExit(..)`
         self.name_results = name_results
         self.inline_mode = inline            # 'default': effectful + small pure module-level helpers ; 'all': every module-level
         self.opaque = set(opaque) | DEFAULT_OPAQUE | imm_eval_wrappers(facts)   # function and local closure except the opaque ones
@@ -280,6 +311,10 @@ class Walker:
                 for a, val in base[3]:
                     if a == node.attr:
                         return val
+            if base[0] == 'closure':
+                got = self.__dict__.get('_fnattrs', {}).get((base, node.attr))
+                if got is not None:
+                    return got
             return v
         if isinstance(node, ast.Call):
             args = []
@@ -379,6 +414,12 @@ class Walker:
                 if node.func.id in ('list', 'tuple') and len(args) == 1 and not kwargs and args[0][0] in ('list', 'tuple') \
                         and not any(a[0] == 'star' for a in args[0][1]):
                     return (node.func.id, args[0][1])
+                sym_arg = self.__dict__.get('_eval_helpers_of')
+                if sym_arg is not None and node.func.id in self.facts.funcs and node.func.id not in self.opaque and node.func.id not in st.env \
+                        and any(a == sym_arg for a in args) and not any(a[0] == 'star' for a in args) and self._inline_stack.count(node.func.id) == 0:
+                    r = self.eval_fn(self.facts.funcs[node.func.id], args, kwargs, st, {})
+                    if r is not None:
+                        return r
                 pf = self.pure_expr_fn(node.func.id)
                 if pf is not None and not kwargs and not any(a[0] == 'star' for a in args):
                     params = [a.arg for a in pf.args.args]
@@ -598,7 +639,7 @@ class Walker:
                 # the views of a dict written out in place, in insertion order
                 pick = {'items': lambda k, v: ('tuple', (k, v)), 'keys': lambda k, v: k, 'values': lambda k, v: v}[lit[2]]
                 lit = ('list', tuple(pick(k, v) for k, v in lit[1][1]))
-            if lit[0] in ('list', 'tuple') and len(lit[1]) <= 64 and not any(e[0] == 'star' for e in lit[1]) and not isinstance(node, ast.SetComp):
+            if lit[0] in ('list', 'tuple') and len(lit[1]) <= 64 and not any(e[0] == 'star' for e in lit[1]):
                 # a comprehension over a literal sequence is the sequence it spells out (elements in order)
                 elems = []
                 ok = True
@@ -615,7 +656,14 @@ class Walker:
                         break
                     if all(conds):
                         elems.append(self.sym(node.elt, s2))
-                if ok:
+                if ok and isinstance(node, ast.SetComp):
+                    if all(is_const(e) for e in elems):
+                        uniq = []
+                        for e in elems:
+                            if e not in uniq:
+                                uniq.append(e)
+                        return ('set', tuple(uniq))
+                elif ok:
                     return ('list', tuple(elems))
             inner = st.clone()
             names = [n.id for n in ast.walk(g.target) if isinstance(n, ast.Name)]
@@ -629,6 +677,11 @@ class Walker:
             if d is not None:
                 return self.sym(node.body if d else node.orelse, st)
             return ('ifexp', t, self.sym(node.body, st), self.sym(node.orelse, st))
+        if isinstance(node, ast.NamedExpr) and isinstance(node.target, ast.Name):
+            # (x := e): the value of e, and x is bound to it from here on
+            v = self.sym(node.value, st)
+            st.env[node.target.id] = v
+            return v
         if isinstance(node, ast.Starred):
             return ('star', self.sym(node.value, st))
         if isinstance(node, ast.JoinedStr):
@@ -906,8 +959,11 @@ class Walker:
             if not paths or len(paths) > 48:
                 return None
             vals = []
+            # rebinding a local of the evaluated frame (or of a helper inlined into it) is no effect anybody else can see
+            own_locals = {n.id for n in ast.walk(fn) if isinstance(n, ast.Name) and isinstance(n.ctx, ast.Store)} | {a.arg for a in fn.args.args}
+            outer = set(cenv) if cenv is not None else set(st.env)
             for p in paths:
-                if any(e[0] not in self.PURE_EVENTS for e in p.events):
+                if any(e[0] not in self.PURE_EVENTS and not (e[0] == 'aug' and (e[1] in own_locals or e[1] not in outer)) for e in p.events):
                     return None
                 if p in live:
                     vals.append((p, C(None)))
@@ -1000,7 +1056,7 @@ class Walker:
                     return r if op in ('==', 'is') else not r
                 if is_const(b):
                     f = st.facts.get(a)
-                    if a[0] in ('new', 'lambda', 'closure', 'list', 'tuple', 'dict', 'set') and b[1] is None:
+                    if (a[0] in ('new', 'lambda', 'closure', 'list', 'tuple', 'dict', 'set') or never_none(a)) and b[1] is None:
                         return op in ('!=', 'is not')
                     if f:
                         if f['eq'] is not None:
@@ -1283,6 +1339,9 @@ class Walker:
         fn = self.facts.funcs[name]
         if self.inline_mode == 'all':
             return fn
+        sym_arg = self.__dict__.get('_eval_helpers_of')
+        if sym_arg is not None and not fn.args.kwarg and any(not isinstance(a, ast.Starred) and self.sym(a, st) == sym_arg for a in call.args):
+            return fn           # a helper of the predicate that is being applied: walked like the local closure it replaces
         if self.effectful_helper(name) or self.small_pure_helper(name):
             return fn
         return None
@@ -1464,8 +1523,26 @@ class Walker:
             out = []
             for s, e in self.expand_calls(node.value, st, done):
                 v = self.sym(e, s)
+                if self.exits_end_paths:
+                    exc = self.process_exit(v)
+                    if exc is not None:
+                        s.events.append(('raise', exc, node))
+                        self.finish(s, 'raise', node, done)
+                        continue
                 if not (v[0] in ('name',) and isinstance(e, ast.Name) and e.id.startswith('__inl')):
                     s.events.append(self.effect(v, node))
+                if (isinstance(e, ast.Call) and isinstance(e.func, ast.Attribute) and isinstance(e.func.value, ast.Name) and e.func.attr in ('append', 'extend')
+                        and v[0] == 'mcall' and v[1][0] == 'list' and len(v[3]) == 1 and not v[4] and s.env.get(e.func.value.id) == v[1]):
+                    # a list display held in a local grows: the local's value is kept up to date (`leading = []; leading.append(x)`)
+                    if e.func.attr == 'append':
+                        s.env[e.func.value.id] = ('list', v[1][1] + (v[3][0],))
+                    elif v[3][0][0] in ('list', 'tuple') and not any(x[0] == 'star' for x in v[3][0][1]):
+                        s.env[e.func.value.id] = ('list', v[1][1] + tuple(v[3][0][1]))
+                    else:
+                        s.env[e.func.value.id] = ('havoc', e.func.value.id, 'extended@{}'.format(getattr(node, 'lineno', 0)))
+                elif (isinstance(e, ast.Call) and isinstance(e.func, ast.Attribute) and isinstance(e.func.value, ast.Name) and v[0] == 'mcall' and v[1][0] == 'list'
+                      and e.func.attr in ('append', 'extend', 'insert', 'pop', 'remove', 'clear', 'sort', 'reverse') and s.env.get(e.func.value.id) == v[1]):
+                    s.env[e.func.value.id] = ('havoc', e.func.value.id, 'mutated@{}'.format(getattr(node, 'lineno', 0)))
                 out.append(s)
             return out
         if isinstance(node, ast.Assign):
@@ -1486,6 +1563,43 @@ class Walker:
                 return out
             return self._assign_stmt(node, st, done, node)
         return self._stmt_rest(node, st, done)
+
+    def effect_only(self, body, st):
+        """Is the statement list made of calls made for their effect only (and `pass`): expression statements whose call is not a
+        helper that would be inlined, does not end the process and has no call / lambda / comprehension among its arguments that
+        could hide one?"""
+        for b in body:
+            if isinstance(b, ast.Pass):
+                continue
+            if not (isinstance(b, ast.Expr) and isinstance(b.value, ast.Call)):
+                return False
+            for n in ast.walk(b.value):
+                if isinstance(n, ast.Call) and self.inline_target(n, st) is not None:
+                    return False
+                if isinstance(n, (ast.Lambda, ast.NamedExpr, ast.Await, ast.Yield, ast.YieldFrom)):
+                    return False
+                if isinstance(n, ast.Call) and isinstance(n.func, ast.Name) and n.func.id in st.env:
+                    return False
+            if self.process_exit(self.sym(b.value, st)) is not None:
+                return False
+        return True
+
+    def process_exit(self, v):
+        """The SystemExit a call statement raises when it never returns: sys.exit(x) / exit(x) / quit(x) are `raise SystemExit(x)`;
+        <argparse.ArgumentParser>.error(msg) prints the message and exits with status 2, .exit(status=0, message=None) with
+        `status`.  None for any other call."""
+        if v[0] == 'call' and v[1] in ('sys.exit', 'exit', 'quit') and not v[3] and len(v[2]) <= 1:
+            return ('call', 'SystemExit', tuple(v[2]), ())
+        if v[0] == 'mcall' and v[2] in ('error', 'exit'):
+            recv = v[1]
+            while recv[0] == 'res':
+                recv = recv[3]
+            if recv[0] == 'call' and recv[1] in ('argparse.ArgumentParser', 'ArgumentParser'):
+                if v[2] == 'error':
+                    return ('call', 'SystemExit', (C(2),), ())
+                status = v[3][0] if v[3] else dict(v[4]).get('status', C(0))
+                return ('call', 'SystemExit', (status,), ())
+        return None
 
     def first_match_next(self, node, st):
         """`X = next((k for k, preds in TABLE.items() if all(pred(args) for pred in preds)), default)`: (target name, keys,
@@ -1556,6 +1670,15 @@ class Walker:
         if isinstance(node, ast.If):
             out = []
             for s, e in self.expand_calls(node.test, st, done):
+                if self.guard_effects and self.effect_only(node.body, s) and self.effect_only(node.orelse, s):
+                    test = self.sym(e, s)
+                    if self.decide(test, s) is None and test[0] != 'bool':
+                        for pol, body in ((True, node.body), (False, node.orelse)):
+                            for b in body:
+                                if isinstance(b, ast.Expr) and isinstance(b.value, ast.Call):
+                                    s.events.append(('guarded', test, pol, self.effect(self.sym(b.value, s), b), node))
+                        out.append(s)
+                        continue
                 out.extend(self.fork(e, s, done, node.body, node.orelse))
             return out
         if isinstance(node, ast.Continue):
@@ -1610,6 +1733,11 @@ class Walker:
                 env[node.name] = st.env[node.name]
             else:
                 st.env[node.name] = ('closure', node.name, id(node))
+            for dec in reversed(getattr(node, 'decorator_list', [])):
+                # @decorator: the name is bound to decorator(function); a decorator that is not applied in place leaves it unknown
+                dv = self.sym(dec, st)
+                made = self.eval_call(dv, (st.env[node.name],), (), st) if isinstance(dv, tuple) and dv and dv[0] in ('closure', 'lambda', 'obj') else None
+                st.env[node.name] = made if made is not None else ('havoc', node.name, 'decorated@{}'.format(node.lineno))
             return [st]
         if isinstance(node, (ast.Import, ast.ImportFrom)):
             st.events.append(('import', unparse(node), node))
@@ -1657,7 +1785,13 @@ class Walker:
                     if val == base:
                         st.env[n_] = new
         elif isinstance(tgt, ast.Attribute):
-            st.events.append(('setattr', self.sym(tgt.value, st), tgt.attr, v, node))
+            base_ = self.sym(tgt.value, st)
+            if base_[0] == 'closure' and len(base_) > 3:
+                # an attribute set on a function object that was created in the frame being evaluated (a tag on a closure):
+                # remembered on the value, visible to nobody else
+                self.__dict__.setdefault('_fnattrs', {})[(base_, tgt.attr)] = v
+                return
+            st.events.append(('setattr', base_, tgt.attr, v, node))
         else:
             raise AnalysisError('pathwalk: assignment target {}'.format(unparse(tgt)))
 
@@ -1748,11 +1882,14 @@ class Walker:
                 accs.setdefault(b.target.id, []).append(('extend', b))
         for s in live + [s for s in inner_done if s.end in ('continue', 'break')]:
             broke = s.end in ('continue', 'break')
+            left_by_break = s.end == 'break'
             s.end = None
             s.events.append(('endloop', it, node))
-            # values assigned before the loop and re-assigned inside are unknown afterwards
+            # values assigned before the loop and re-assigned inside are unknown afterwards - except on a path that leaves through
+            # `break`: what it assigned in that last iteration is what the code after the loop sees (everything assigned in earlier
+            # iterations is havoc already, from the loop entry)
             for n in names:
-                if n in st.env and s.env.get(n) != st.env.get(n):
+                if n in st.env and s.env.get(n) != st.env.get(n) and not left_by_break:
                     s.env[n] = ('havoc', n, tag)
             for an, uses in accs.items():
                 if len(uses) == 1 and not broke:
@@ -1978,16 +2115,24 @@ class Walker:
             elems = [('tuple', (k, v)) for k, v in it[1][1]]
         elif it[0] in ('list', 'tuple') and not any(e[0] == 'star' for e in it[1]):
             elems = list(it[1])
+        elif (it[0] == 'dict' or (it[0] == 'mcall' and it[2] == 'keys' and not it[3] and it[1][0] == 'dict')) \
+                and all(isinstance(pr, tuple) and len(pr) == 2 and is_const(pr[0]) for pr in (it if it[0] == 'dict' else it[1])[1]):
+            elems = [k for k, _ in (it if it[0] == 'dict' else it[1])[1]]          # for key in TABLE: ... TABLE[key] ...
         else:
             return None
-        if not elems or len(elems) > 64 or not all(e[0] in ('tuple', 'list') for e in elems):
+        if not elems or len(elems) > 64:
             return None
-        if not (len(node.body) == 1 and isinstance(node.body[0], ast.If) and not node.body[0].orelse):
+        # plain bindings in front of the test (`preds = criteria[name]`) are part of the row
+        prefix = [b for b in node.body[:-1]]
+        if not all(isinstance(b, ast.Assign) and len(b.targets) == 1 and isinstance(b.targets[0], (ast.Name, ast.Tuple))
+                   and not any(isinstance(n, ast.Call) for n in ast.walk(b.value)) for b in prefix):
+            return None
+        if not (node.body and isinstance(node.body[-1], ast.If) and not node.body[-1].orelse):
             return None
         if node.orelse and not (len(node.orelse) == 1 and isinstance(node.orelse[0], ast.Assign) and len(node.orelse[0].targets) == 1
                                 and isinstance(node.orelse[0].targets[0], ast.Name)):
             return None
-        iff = node.body[0]
+        iff = node.body[-1]
         if not (len(iff.body) == 2 and isinstance(iff.body[0], ast.Assign) and isinstance(iff.body[1], ast.Break)
                 and len(iff.body[0].targets) == 1 and isinstance(iff.body[0].targets[0], ast.Name)):
             return None
@@ -1996,7 +2141,7 @@ class Walker:
         var = iff.body[0].targets[0].id
         if node.orelse and node.orelse[0].targets[0].id != var:
             return None
-        bound = {n.id for n in ast.walk(node.target) if isinstance(n, ast.Name)}
+        bound = {n.id for n in ast.walk(node.target) if isinstance(n, ast.Name)} | {n.id for b in prefix for n in ast.walk(b.targets[0]) if isinstance(n, ast.Name)}
         pairs = []
         shape = None
         self.__dict__['_capture_all'] = self.__dict__.get('_capture_all', 0) + 1
@@ -2005,6 +2150,8 @@ class Walker:
                 s2 = st.clone()
                 try:
                     self.assign(node.target, e, s2, node)
+                    for b in prefix:
+                        self.assign(b.targets[0], self.sym(b.value, s2), s2, b)
                     tv = self.sym(iff.test, s2)
                     key = self.sym(iff.body[0].value, s2)
                 except AnalysisError:
